@@ -3,6 +3,7 @@ import TinysetModel.Proofs.CapSpec
 import TinysetModel.Proofs.CoreInst
 import TinysetModel.Proofs.AnyOrderU
 import TinysetModel.Proofs.Ascend
+import TinysetModel.Proofs.CollectAny
 /-! C12 — dense sets of small integers cost about a bit per member.
 Proved: (a) `collect()` of `0..n` ends in the dense bitset whose block is `denseCap (n-1)` words — at most
 `n/4 + 64` bytes (2 bits per member + 64 bytes) — for every `64 ≤ n ≤ 2^31`, consuming no random draw.
@@ -40,6 +41,19 @@ theorem ascending_u32 (g : Rng D) (fuel : Nat) (n : Nat) (hn : 64 ≤ n) (hn' : 
     ∃ r, insertAll (insert cfg32 g (fuel + 2)) .empty (List.range n) d = .ok (r, d) ∧ len r = n ∧
       (∀ x, x ∈ elems cfg32 r ↔ x < n) ∧ blockBytes cfg32 r ≤ n / 4 + 64 :=
   ascending_range_bytes32 g fuel n hn hn' d
+
+/-- **`collect()` of any sequence whose distinct items are exactly `0..n`** — any order, any repetitions — is the
+    same computation as `collect()` of `0..n`: same dense layout, same closed form, ≤ n/4 + 64 bytes, no draw -/
+theorem collect_any_sequence_u64 (g : Rng D) (fuel : Nat) {n : Nat} (hn : 64 ≤ n) (hn' : n ≤ 2 ^ 31)
+    {l : List Nat} (hm : ∀ x, x ∈ l ↔ x < n) (d : D) :
+    ∃ r, fromIter cfg64 g (fuel + 1) l d = .ok (r, d) ∧ len r = n ∧
+      blockBytes cfg64 r = 8 * (1 + (n - 1) / 64 + (n - 1) / 256) + 24 ∧ blockBytes cfg64 r ≤ n / 4 + 64 :=
+  collect_any_bytes64 g fuel hn hn' hm d
+theorem collect_any_sequence_u32 (g : Rng D) (fuel : Nat) {n : Nat} (hn : 64 ≤ n) (hn' : n ≤ 2 ^ 31)
+    {l : List Nat} (hm : ∀ x, x ∈ l ↔ x < n) (d : D) :
+    ∃ r, fromIter cfg32 g (fuel + 1) l d = .ok (r, d) ∧ len r = n ∧
+      blockBytes cfg32 r = 4 * (1 + (n - 1) / 32 + (n - 1) / 128) + 12 ∧ blockBytes cfg32 r ≤ n / 4 + 64 :=
+  collect_any_bytes32 g fuel hn hn' hm d
 
 /-- the layout is the dense one (`bits = W`), with `n` members -/
 theorem collect_range_layout_u64 (g : Rng D) (fuel : Nat) {n : Nat} (hn : 64 ≤ n) (hn' : n ≤ 2 ^ 31) (d : D) :
@@ -82,3 +96,5 @@ theorem any_order_partial_u32 (g : Rng D) {r : Rp} {n : Nat} (h : Hist cfg32 g r
 example : 8 * (1 + (1000 - 1) / 64 + (1000 - 1) / 256) + 24 = 176 ∧ 176 ≤ 1000 / 4 + 64 := by decide
 
 end C12
+#print axioms C12.collect_any_sequence_u64
+#print axioms C12.collect_any_sequence_u32
